@@ -4,6 +4,7 @@ pub mod util;
 pub mod arena;
 pub mod bufs;
 pub mod drv;
+pub mod iso;
 pub mod model;
 pub mod out;
 pub mod readers;
@@ -65,6 +66,7 @@ fn main() {
         "seq" => seq::child_main(&args),
         "bufs" => bufs::child_main(&args),
         "readers" => readers::c15_main(&args),
+        "iso-c04" => iso::c04_main(&args),
         "cksum" => readers::c19_main(&args),
         "drive" => drive::main(&args),
         other => {
